@@ -214,6 +214,10 @@ func (rm *RequestManager) terminateRequest(requestID graphsync.RequestID, ipr *i
 	}
 	rm.connManager.Unprotect(ipr.p, requestID.Tag())
 	delete(rm.inProgressRequestStatuses, requestID)
+	if ipr.state == graphsync.Queued {
+		// the request never reached a worker (or was unpaused and is waiting again): drop its task too
+		rm.requestQueue.Remove(requestID, ipr.p)
+	}
 	ipr.cancelFn()
 	if ipr.reconciledLoader != nil {
 		ipr.reconciledLoader.Cleanup(rm.ctx)
